@@ -6,7 +6,7 @@ sys.path.insert(0, V)
 from lib import common, gen
 compileall.compile_dir(os.path.join(V, 'ref'), quiet=1)
 rc = 0
-for pkg in ['codec_driver', 'misc_driver', 'umask_driver']:
+for pkg in ['codec_driver', 'misc_driver', 'umask_driver', 'async_driver']:
     try:
         common.cargo_build(pkg)
     except common.Inconclusive as e:
